@@ -166,9 +166,10 @@ def listGet {β} (xs : List β) (i : Int) : Option β :=
   let j := if i < 0 then i + n else i
   if j < 0 ∨ j ≥ n then none else xs[j.toNat]?
 
-/-- `block_access.__getitem__(int)`: negative or too large raises IndexError (no wrap-around!) -/
+/-- `block_access.__getitem__(int)` as coded: `if p < 0: p += len; if not (0 <= p < len): raise IndexError; blocks[p // bs][p % bs]` -/
 def baGet {β} (xs : List β) (p : Int) : Option β :=
-  if 0 ≤ p ∧ p < (xs.length : Int) then xs[p.toNat]? else none
+  let q := if p < 0 then p + (xs.length : Int) else p
+  if 0 ≤ q ∧ q < (xs.length : Int) then xs[q.toNat]? else none
 
 /-- all elements defined (no access raised) -/
 def allSome {β} : List (Option β) → Option (List β)
